@@ -453,6 +453,20 @@ class Intervals:
             while isinstance(inner, Named):
                 inner = inner.x
             if isinstance(inner, Bin) and inner.op.endswith("WithOverflow") and e.idx == 0:
+                if inner.op == "SubWithOverflow":
+                    # the checked result of an unsigned subtraction (its own overflow assert is a site of its own):
+                    # it lies between 0 and the minuend, whatever is known about the subtrahend
+                    r = ty_range(inner.lty)
+                    a = self.of(inner.l, depth - 1)
+                    if r is not None and r[0] == 0 and a is not None and a != _BOTTOM and a[0] >= 0:
+                        b = self.of(inner.r, depth - 1)
+                        if b is None or b == _BOTTOM:
+                            return (0, a[1])
+                        lo, hi = max(0, a[0] - b[1]), a[1] - max(0, b[0])
+                        if ("Lt", USH(inner.r), USH(inner.l)) in self.rel:
+                            lo = max(lo, 1)
+                        if lo <= hi:
+                            return (lo, hi)
                 return _clamp(self._bin(inner.op[:-12], inner.l, inner.r, depth), inner.lty)
             if _is_index_source(e):
                 return (0, LEN_MAX)
@@ -733,6 +747,12 @@ def discharge(site, facts=None):
         n = iv.of(e.args[1])
         if n is not None and n[0] > 0:
             return ("interval", "chunk size %s is non-zero" % (n,))
+        return None
+    if site.what == "div" and len(e.args) == 2:
+        iv = Intervals(body, site.bb)
+        n = iv.of(e.args[1])
+        if n is not None and (n[0] > 0 or n[1] < 0):
+            return ("interval", "divisor %s of %s is never zero" % (n, nm))
         return None
     return None
 
